@@ -81,7 +81,7 @@ func main() {
 	log.SetOutput(io.Discard)
 	run := ev.Start("C16")
 	defer run.Guard()
-	run.Rule("case = (generation, key type, batch method, key multiset, scripted reply): key types = string, int, long, float, double, boolean, hand-written enum and complex key (both generations), custom typeref, generated enum and generated complex key (v2); multisets mix hostile strings, numeric extremes, keys with colliding bucket hashes, duplicates under key equality (complex keys: other parameters; floats: -0/+0); replies mention each requested key in any subset of results/statuses/errors in shuffled order, printed by the reference encoder in three escaping styles with shuffled members and other parameters, and sometimes a never-requested (fresh or colliding) key. Checked: duplicates fail with nothing sent; exactly one request; ids (and entities body keys + attached entities) decode to exactly the caller's keys; every entry is found under the caller's own Go value with the value the reply attached; sizes equal; unrequested key => error. distinct = (key type, method, key-set kind, reply shape)")
+	run.Rule("case = (generation, key type, batch method, key multiset, scripted reply): key types = string, int, long, float, double, boolean, hand-written enum and complex key (both generations), custom typeref, generated enum and generated complex key (v2); multisets mix hostile strings, numeric extremes, keys with colliding bucket hashes, duplicates under key equality (complex keys: other parameters; floats: -0/+0); replies mention each requested key in any subset of results/statuses/errors in shuffled order, printed by the reference encoder in three escaping styles with shuffled members and other parameters, and sometimes a never-requested key (fresh, colliding, or — integer keys — a requested key plus or minus 2^32 / 2^64, which a narrowing decode would file under the requested one). Checked: duplicates fail with nothing sent; exactly one request; ids (and entities body keys + attached entities) decode to exactly the caller's keys; every entry is found under the caller's own Go value with the value the reply attached; sizes equal; unrequested key => error. distinct = (key type, method, key-set kind, reply shape)")
 	run.Assume("bytes keys cannot be expressed (K must be comparable), NaN keys and replies that mention one key twice are not generated", "the query is never tunnelled here (C14 covers tunnelling)")
 	rng := rand.New(rand.NewSource(run.Seed))
 	cases := run.Pick(1200, 20000)
@@ -109,5 +109,7 @@ func main() {
 	run.Require("root.entries_correlated", 100)
 	run.Require("v2.complex.collision_groups", 1)
 	run.Require("v2.complex.unrequested_colliding_key_replies", 3)
+	run.Require("v2.int.out_of_range_alias_replies", 3)
+	run.Require("root.int.out_of_range_alias_replies", 3)
 	run.Finish()
 }
